@@ -141,6 +141,12 @@ def corpus():
         # stored columns modified in place: out-of-sync records are validation errors (AssertionError before the repair)
         {"kind": "validate", "stream": "corpus", "spec": {"line": "1\t2", "names": ["a", "b"], "scheme": None, "ln": 9},
          "reset": True, "vscheme": None, "tamper": [["idx", "a", 1], ["key", "b", "c"]]},
+        # two stored columns end up with the same key and index: only object identity tells them apart
+        {"kind": "validate", "stream": "corpus",
+         "spec": {"line": "v0\tv1\t}", "names": ["Hugo_Symbol", "Chromosome", "Start_Position"],
+                  "scheme": ["norestr", ["Hugo_Symbol", "Chromosome", "Start_Position"]], "ln": None},
+         "reset": True, "vscheme": ["builtin", "gdc-1.0.0"],
+         "tamper": [["key", "Start_Position", "Hugo_Symbol"], ["idx", "Start_Position", 0]]},
         # from_path channels: a header without a version / a record with a wrong field count, plain and gzip
         {"kind": "writer", "stream": "corpus", "hlines": ["#center x"], "channel": "gz",
          "specs": [{"line": "1\t2", "names": ["a", "b"], "scheme": None, "ln": None}]},
